@@ -105,18 +105,22 @@ pub async fn socks5_greet<S: AsyncRead + AsyncWrite + Unpin>(s: &mut S) -> Resul
     Ok(())
 }
 
-/// SOCKS5 CONNECT to an IPv4 address (`host` = None) or a domain name.
-pub async fn socks5_connect<S: AsyncRead + AsyncWrite + Unpin>(s: &mut S, ip: Ipv4Addr, port: u16, host: Option<&str>) -> Shake {
+/// SOCKS5 CONNECT to an IP address (`host` = None: ATYP 1 for IPv4, ATYP 4 for IPv6) or a domain name.
+pub async fn socks5_connect<S: AsyncRead + AsyncWrite + Unpin>(s: &mut S, ip: IpAddr, port: u16, host: Option<&str>) -> Shake {
     if let Err(e) = socks5_greet(s).await {
         return e;
     }
     let mut req = vec![5u8, 1, 0];
-    match host {
-        None => {
+    match (host, ip) {
+        (None, IpAddr::V4(ip)) => {
             req.push(1);
             req.extend_from_slice(&ip.octets());
         }
-        Some(h) => {
+        (None, IpAddr::V6(ip)) => {
+            req.push(4);
+            req.extend_from_slice(&ip.octets());
+        }
+        (Some(h), _) => {
             req.push(3);
             req.push(u8::try_from(h.len()).expect("domain too long"));
             req.extend_from_slice(h.as_bytes());
